@@ -452,34 +452,46 @@ def Conforming (t : Tree) (r : Req) : Prop :=
   (r.m = .copy ∨ r.m = .move) → get t (destOf r) = some .dir →
     get t r.src.segs = some .dir ∧ hasChild (destOf r) t = false
 
+/-- 2xx other than 207 Multi-Status (which reports member failures) -/
+def isSuccess (s : Nat) : Bool := 200 ≤ s && s < 300 && s != 207
+
+/-- the reference tree after a request sequence: the RFC effects of exactly those requests that
+    were reported successful (`oks`), in order -/
+def refRun (t : FS) : List Req → List Bool → FS
+  | r :: rs, ok :: oks => refRun (if ok then rfcEffect t r else t) rs oks
+  | _, _ => t
+
+/-- every request of the sequence is covered by the reference at the point it is issued and is not
+    answered 207 Multi-Status -/
+def ConformingRun : Tree → List Req → Prop
+  | _, [] => True
+  | t, r :: rs => Conforming t r ∧ (step t r).1 ≠ 207 ∧ ConformingRun (step t r).2 rs
+
 /-! ### Destination header (mod_webdav_copymove_b) -/
 
 def idxOf (b : UInt8) : Bytes → Option Nat
   | [] => none
   | x :: xs => if x = b then some 0 else (idxOf b xs).map (· + 1)
 
-/-- strict UTF-8 well-formedness (buffer_is_valid_UTF8) -/
-def validUtf8 : Bytes → Bool
-  | [] => true
-  | b0 :: rest =>
-    if b0 < 0x80 then validUtf8 rest
-    else if 0xC2 ≤ b0 && b0 ≤ 0xDF then
-      match rest with
-      | b1 :: r => (b1 &&& 0xC0 == 0x80) && validUtf8 r
-      | _ => false
-    else if 0xE0 ≤ b0 && b0 ≤ 0xEF then
-      match rest with
-      | b1 :: b2 :: r =>
-        (b1 &&& 0xC0 == 0x80) && (b2 &&& 0xC0 == 0x80) &&
-        !(b0 == 0xE0 && b1 < 0xA0) && !(b0 == 0xED && b1 ≥ 0xA0) && validUtf8 r
-      | _ => false
-    else if 0xF0 ≤ b0 && b0 ≤ 0xF4 then
-      match rest with
-      | b1 :: b2 :: b3 :: r =>
-        (b1 &&& 0xC0 == 0x80) && (b2 &&& 0xC0 == 0x80) && (b3 &&& 0xC0 == 0x80) &&
-        !(b0 == 0xF0 && b1 < 0x90) && !(b0 == 0xF4 && b1 ≥ 0x90) && validUtf8 r
-      | _ => false
+/-- strict UTF-8 well-formedness (buffer_is_valid_UTF8) as a byte automaton: `need` continuation
+    bytes are still expected, the next one must lie in `[lo, hi]` (this encodes the overlong,
+    surrogate and > U+10FFFF exclusions) -/
+def validUtf8Aux : Bytes → Nat → UInt8 → UInt8 → Bool
+  | [], need, _, _ => need == 0
+  | b :: rest, 0, _, _ =>
+    if b < 0x80 then validUtf8Aux rest 0 0x80 0xBF
+    else if 0xC2 ≤ b && b ≤ 0xDF then validUtf8Aux rest 1 0x80 0xBF
+    else if b == 0xE0 then validUtf8Aux rest 2 0xA0 0xBF
+    else if b == 0xED then validUtf8Aux rest 2 0x80 0x9F
+    else if 0xE1 ≤ b && b ≤ 0xEF then validUtf8Aux rest 2 0x80 0xBF
+    else if b == 0xF0 then validUtf8Aux rest 3 0x90 0xBF
+    else if b == 0xF4 then validUtf8Aux rest 3 0x80 0x8F
+    else if 0xF1 ≤ b && b ≤ 0xF3 then validUtf8Aux rest 3 0x80 0xBF
     else false
+  | b :: rest, need + 1, lo, hi =>
+    if lo ≤ b && b ≤ hi then validUtf8Aux rest need 0x80 0xBF else false
+
+def validUtf8 (s : Bytes) : Bool := validUtf8Aux s 0 0x80 0xBF
 
 /-- the path part: strip the query, url-decode, check UTF-8, simplify -/
 def destPath (start : Bytes) : Except Nat Bytes :=
